@@ -381,6 +381,21 @@ def o134(ctx):
             for e in it.events:
                 if e.kind == "inplace" and e.fn.startswith(CM):
                     ctx.count(1)
+        # the same mask listed twice is two entries of the list (subtraction([A, A]) is empty, not A): nothing may drop a repeated entry
+        m0 = Val(sym("m0"))
+        for lst, names in (([m0, m0], ("m0", "m0")), ([m0, Val(sym("m1")), m0], ("m0", "m1", "m0"))):
+            it = Interp(ctx.prog, summaries=summ)
+            r = it.run(q, [Seq(list(lst), "list")], {})
+            t = to_term(r.ret)
+            for bits in itertools.product((0.0, 1.0), repeat=len(set(names))):
+                env = dict(zip(sorted(set(names)), bits))
+                got = float(np.asarray(tm.evaluate(t, env)))
+                want = f(tuple(env[n_] for n_ in names))
+                ctx.count(1)
+                if abs(got - want) > 1e-12:
+                    ctx.finding(q, "a mask listed twice", f"{name}({list(names)}) with {env} gives {got}, expected {want}: an entry that occurs twice in the list "
+                                "counts twice (for subtraction the second occurrence removes the mask from itself)", fn, m)
+                    break
     # freshness: cryomap.read returns a copy on every path; in-place folds act on fresh arrays only
     mr, fr_ = ctx.prog.func("cryomap.read")
     ctx.touched("cryomap.read")
@@ -389,9 +404,8 @@ def o134(ctx):
         it = Interp(ctx.prog, assume=assume_map(assume))
         r = it.run("cryomap.read", [arg], {})
         ctx.count(1, {"cryomap.read": label, "returns a fresh array": getattr(r.ret, "fresh", None)})
-        if label == "array input" and getattr(r.ret, "fresh", None) is not True:
-            ctx.finding("cryomap.read", "returned array for an array input", "cryomap.read must return a copy of an array input on every "
-                        "path: the mask algebra folds in place into what it returns (inputs would be modified)", fr_, mr)
+        # (not demanded by itself: since /repo 0c3b2d4 no fold acts on what read returns -- subtraction converts its first mask, which copies it; the
+        # per-fold rule below follows read's result into every in-place fold and reports the fold whose target may be the caller's array)
     for name in truth:
         q = CM + name
         m, fn = ctx.prog.func(q)
@@ -427,7 +441,7 @@ def o134(ctx):
                     (isinstance(x, ast.Name) and any(isinstance(a_, ast.Assign) and any(isinstance(t_, ast.Name) and t_.id == x.id for t_ in a_.targets)
                                                        and isinstance(a_.value, ast.Call) and (ctx.prog.resolve(m, a_.value.func) or "").split(".")[-1] in truth
                                                        for a_ in ast.walk(fn)))
-                if not (sib(b_.left) and sib(b_.right)):
+                if not (sib(b_.left) and sib(b_.right)) and not ctx.cur.findings:
                     raise Unsupported(f"{name}: a subtraction whose operands are not results of the sibling combinators (element type not decided)", b_)
 
 
@@ -515,4 +529,4 @@ def _obligations():
 
 
 def obligations():
-    return _obligations() + [labels_obligation("C13"), selectors_obligation("C13"), effects_obligation("C13"), plumbing_obligation("C13"), overrides_obligation("C13"), options_obligation("C13"), handlers_obligation("C13")]
+    return _obligations() + [labels_obligation("C13"), selectors_obligation("C13"), mutations_obligation("C13"), effects_obligation("C13"), plumbing_obligation("C13"), overrides_obligation("C13"), options_obligation("C13"), handlers_obligation("C13")]
